@@ -109,6 +109,7 @@ func (w *World) checkTree(what string, ds *dirState, afterWrite bool) bool {
 	}
 	if afterWrite {
 		for _, root := range w.Cfg.Storage.RootDirs {
+			root = filepath.Clean(root)
 			if perRoot[root] == 0 {
 				w.R.Failf("%s: root %s offers no directory to write to after a successful write", what, root)
 				return false
